@@ -450,6 +450,18 @@ fn run_all_inspections(
             MetadataWrapper::Link(inner) => inner,
         };
 
+        // a failing inspection command fails the verification
+        if let Some(return_value) = link_metadata.byproducts.return_value() {
+            if return_value != 0 {
+                return Err(Error::VerificationFailure(format!(
+                    "Inspection command '{}' of inspection '{}' returned non-zero value: {}",
+                    cmd_args.join(" "),
+                    inspect.name(),
+                    return_value
+                )));
+            }
+        }
+
         inspection_links.insert(inspect.name().to_string(), link_metadata);
     }
 
